@@ -153,12 +153,24 @@ theorem expandBoundVar_cands (G : LGraph) (cur : VNode) (c : Cand)
   all_goals (try simp only [List.mem_append, List.mem_singleton] at h)
   all_goals grind
 
-theorem expandFreeVar_cands (G : LGraph) (cur : VNode) (c : Cand)
-    (h : c ∈ (expandFreeVar G cur).cands) :
+theorem mem_fvNoCtx {G : LGraph} {cur : VNode} {c : Cand} (h : c ∈ (fvNoCtx G cur).cands) :
+    ∃ cl ∈ (G.ginfo (G.node cur.node).graph).refClosures, (G.node cl).bvs[(G.node cur.node).index]? = some c.node := by
+  unfold fvNoCtx at h
+  dsimp only at h
+  simp only [List.mem_filterMap, Option.map_eq_some_iff] at h
+  obtain ⟨cl, hcl, bv, hbv, rfl⟩ := h
+  exact ⟨cl, hcl, by simpa [mk] using hbv⟩
+
+theorem fvNoCtx_inc (G : LGraph) (cur : VNode) : (fvNoCtx G cur).incoherent = false := rfl
+
+theorem expandFreeVar_cands (G : LGraph) (cfg : Cfg) (cur : VNode) (c : Cand)
+    (h : c ∈ (expandFreeVar G cfg cur).cands) :
     c ∈ inCands G cur ∨
     (∃ cl rest bv, cur.ctrace = cl :: rest ∧ (G.node cl).bvs[(G.node cur.node).index]? = some bv ∧
-      c.node = bv ∧ (expandFreeVar G cur).incoherent = ((G.node cl).closGraph != some (G.node cur.node).graph)) ∨
-    (∃ cl ∈ (G.ginfo (G.node cur.node).graph).refClosures, (G.node cl).bvs[(G.node cur.node).index]? = some c.node) := by
+      c.node = bv ∧ (expandFreeVar G cfg cur).incoherent = ((G.node cl).closGraph != some (G.node cur.node).graph) ∧
+      (cfg.closureCheck = true → (G.node cl).closGraph = some (G.node cur.node).graph)) ∨
+    ((∃ cl ∈ (G.ginfo (G.node cur.node).graph).refClosures, (G.node cl).bvs[(G.node cur.node).index]? = some c.node) ∧
+      (expandFreeVar G cfg cur).incoherent = false) := by
   unfold expandFreeVar at h ⊢
   dsimp only at h ⊢
   split
@@ -170,23 +182,27 @@ theorem expandFreeVar_cands (G : LGraph) (cur : VNode) (c : Cand)
       rw [hct] at h
       dsimp only at h
       split
-      · rename_i bv hbv
-        rw [hbv] at h
-        dsimp only at h
-        simp only [List.mem_singleton] at h
-        right; left
-        exact ⟨cl, rest, bv, hct, hbv, by rw [h], rfl⟩
-      · rename_i hbv
-        rw [hbv] at h
-        simp at h
+      · rename_i hcc
+        rw [if_pos hcc] at h
+        exact Or.inr (Or.inr ⟨mem_fvNoCtx h, fvNoCtx_inc G cur⟩)
+      · rename_i hcc
+        rw [if_neg hcc] at h
+        split
+        · rename_i bv hbv
+          rw [hbv] at h
+          dsimp only at h
+          simp only [List.mem_singleton] at h
+          right; left
+          refine ⟨cl, rest, bv, hct, hbv, by rw [h], rfl, ?_⟩
+          intro hck
+          simp only [hck, Bool.true_and, bne_iff_ne, ne_eq, Decidable.not_not] at hcc
+          exact hcc
+        · rename_i hbv
+          rw [hbv] at h
+          simp at h
     · rename_i hct
       rw [hct] at h
-      dsimp only at h
-      simp only [List.mem_filterMap, Option.map_eq_some_iff] at h
-      obtain ⟨cl, hcl, bv, hbv, rfl⟩ := h
-      right; right
-      exact ⟨cl, hcl, by simpa [mk] using hbv⟩
-
+      exact Or.inr (Or.inr ⟨mem_fvNoCtx h, fvNoCtx_inc G cur⟩)
 
 theorem expandParam_inc (G : LGraph) (cur : VNode) : (expandParam G cur).incoherent = false := by
   unfold expandParam
@@ -234,10 +250,10 @@ theorem expandBoundVar_linked (G : LGraph) (cur : VNode) (c : Cand) (hk : G.kind
   · obtain ⟨i, hi⟩ := mem_inCands h; exact .inEdge hi
   · exact .bvToFv hk (by simpa [mk] using hfv)
 
-theorem expandFreeVar_linked (G : LGraph) (cur : VNode) (c : Cand) (hk : G.kind cur.node = .freeVar)
-    (h : c ∈ (expandFreeVar G cur).cands) :
-    LinkedW G cur.node c.node ∧ ((expandFreeVar G cur).incoherent = false → Linked G cur.node c.node) := by
-  rcases expandFreeVar_cands G cur c h with h | ⟨cl, rest, bv, _, hbv, rfl, hinc⟩ | ⟨cl, hcl, hbv⟩
+theorem expandFreeVar_linked (G : LGraph) (cfg : Cfg) (cur : VNode) (c : Cand) (hk : G.kind cur.node = .freeVar)
+    (h : c ∈ (expandFreeVar G cfg cur).cands) :
+    LinkedW G cur.node c.node ∧ ((expandFreeVar G cfg cur).incoherent = false → Linked G cur.node c.node) := by
+  rcases expandFreeVar_cands G cfg cur c h with h | ⟨cl, rest, bv, _, hbv, rfl, hinc, _⟩ | ⟨⟨cl, hcl, hbv⟩, _⟩
   · obtain ⟨i, hi⟩ := mem_inCands h
     exact ⟨.link (.inEdge hi), fun _ => .inEdge hi⟩
   · refine ⟨.ctxJump (c := cl) hk hbv, ?_⟩
@@ -247,6 +263,25 @@ theorem expandFreeVar_linked (G : LGraph) (cur : VNode) (c : Cand) (hk : G.kind 
     exact .fvToBv (c := cl) hk (Or.inr hcg) hbv
   · have : Linked G cur.node c.node := .fvToBv (c := cl) hk (Or.inl hcl) hbv
     exact ⟨.link this, fun _ => this⟩
+
+/-- with the repair (`closureCheck`), the free-variable case never takes a foreign closure -/
+theorem expandFreeVar_inc_fixed (G : LGraph) (cfg : Cfg) (cur : VNode) (hc : cfg.closureCheck = true) :
+    (expandFreeVar G cfg cur).incoherent = false := by
+  unfold expandFreeVar
+  dsimp only
+  split
+  · rfl
+  · split
+    · rename_i cl rest _
+      split
+      · rfl
+      · rename_i hcc
+        have hcg : ((G.node cl).closGraph != some (G.node cur.node).graph) = false := by
+          simpa [hc] using hcc
+        split
+        · exact hcg
+        · rfl
+    · rfl
 
 /-- Every candidate is weakly linked; it is strongly linked unless the expansion flagged the
 closure-trace mismatch. -/
@@ -270,7 +305,7 @@ theorem expand_linked (G : LGraph) (cfg : Cfg) (pei : List (Nat × Int)) (cur : 
     obtain ⟨w, hw, rfl⟩ := h
     exact strong (.readToWrite hk hw)
   · exact strong (expandBoundVar_linked G cur c hk h)
-  · exact expandFreeVar_linked G cur c hk h
+  · exact expandFreeVar_linked G cfg cur c hk h
   · simp only [List.mem_map] at h
     obtain ⟨b, hb, rfl⟩ := h
     exact strong (.closureToBv hk hb)
@@ -444,6 +479,50 @@ theorem loop_chain_strong (G : LGraph) (cfg : Cfg) (ρ : VNode → List Cand →
       · right
         exact ⟨h.1 cur (by rw [hs]; exact List.mem_cons_self),
           fun v hv => h.1 v (by rw [hs]; exact List.mem_cons_of_mem _ hv), h.2⟩
+
+/-! ### with the proposed repair the mismatch flag never goes up -/
+
+theorem expand_inc_fixed (G : LGraph) (cfg : Cfg) (pei : List (Nat × Int)) (cur : VNode)
+    (hc : cfg.closureCheck = true) : (expand G cfg pei cur).incoherent = false := by
+  unfold expand
+  split
+  · exact expandParam_inc G cur
+  · exact expandArg_inc G cfg cur
+  · rfl
+  · rfl
+  · rfl
+  · rfl
+  · rfl
+  · exact expandBoundVar_inc G cur
+  · exact expandFreeVar_inc_fixed G cfg cur hc
+  · rfl
+  · split <;> rfl
+  · rfl
+
+theorem stepNode_coherent_fixed (G : LGraph) (cfg : Cfg) (ρ : VNode → List Cand → List Cand)
+    (hc : cfg.closureCheck = true) (cur : VNode) (st : St) (h : st.incoherent = false) :
+    (stepNode G cfg ρ cur st).incoherent = false := by
+  unfold stepNode
+  split
+  · exact h
+  · split
+    · exact h
+    · dsimp only
+      split
+      · exact h
+      · have htr := addAll_traces G cur (ρ cur (expand G cfg st.pei cur).cands) st
+        have he := expand_inc_fixed G cfg st.pei cur hc
+        split <;> simp [htr.2.1, h, he]
+
+theorem loop_coherent_fixed (G : LGraph) (cfg : Cfg) (ρ : VNode → List Cand → List Cand)
+    (hc : cfg.closureCheck = true) : ∀ (fuel : Nat) (st : St), st.incoherent = false →
+    (loop G cfg ρ fuel st).incoherent = false
+  | 0, _, h => h
+  | fuel + 1, st, h => by
+    unfold loop
+    split
+    · exact h
+    · exact loop_coherent_fixed G cfg ρ hc fuel _ (stepNode_coherent_fixed G cfg ρ hc _ _ h)
 
 theorem root_chain (R : Nat → Nat → Prop) (entry : Nat) (pei0 : List (Nat × Int)) :
     ChainInv R entry { stack := [rootOf entry], pei := pei0 } := by
